@@ -352,12 +352,85 @@ fn check_simple(case: &Case) -> CheckResult {
     Ok(st)
 }
 
+fn check_sweep(case: &Case) -> CheckResult {
+    let n = case.extra["n"].as_u64().unwrap_or(100).clamp(3, 20_000) as usize;
+    let nonce = NONCE.fetch_add(1, Ordering::Relaxed);
+    let probe = "aab bc abc a";
+    let mk = |i: usize| {
+        vec![scnr::ScannerMode::new(
+            &format!("S{}_{}", nonce, i),
+            vec![
+                scnr::Pattern::new(format!("a{{{}}}", 1 + i % 3), 1),
+                scnr::Pattern::new("[a-c]+".to_string(), 2 + i),
+                scnr::Pattern::new("b".to_string(), 0)
+                    .with_lookahead(scnr::Lookahead::new(i % 2 == 0, "c".to_string())),
+            ],
+            vec![],
+        )]
+    };
+    let mut st = CaseStats::default();
+    let tokens = |s: &scnr::Scanner| -> Vec<Tok> { s.find_iter(probe).map(|m| Tok::of(&m)).collect() };
+    let mut expected: Vec<Vec<Tok>> = Vec::with_capacity(n + 2);
+    let check_one = |i: usize, phase: &str, expected: &mut Vec<Vec<Tok>>| -> Result<(), Failure> {
+        let modes = mk(i);
+        let r = guard(|| {
+            let a = scnr::ScannerBuilder::new().add_scanner_modes(&modes).build();
+            let b = if i >= expected.len() {
+                Some(scnr::ScannerBuilder::new().add_scanner_modes(&modes).build_uncached())
+            } else {
+                None
+            };
+            (a, b)
+        });
+        let (a, b) = match r {
+            Err(p) => return Err(Failure::panic("c13.panic", format!("sweep {}: build of configuration {} panicked", phase, i), p)),
+            Ok(x) => x,
+        };
+        if let Some(b) = b {
+            match b {
+                Ok(b) => expected.push(tokens(&b)),
+                Err(e) => return Err(Failure::new("c13.outcome", format!("sweep: configuration {} does not build without the cache: {}", i, e))),
+            }
+        }
+        let a = a.map_err(|e| Failure::new("c13.outcome", format!("sweep {}: build() of configuration {} fails: {}", phase, i, e)))?;
+        let got = tokens(&a);
+        if got != expected[i] || a.mode_name(0) != Some(&format!("S{}_{}", nonce, i)) {
+            return Err(Failure::new(
+                "c13.stream",
+                format!("sweep over {} configurations, {}: build() of configuration {} returned the scanner of another configuration ({:?})", n, phase, i, a.mode_name(0)),
+            )
+            .exp_obs(&expected[i], &got));
+        }
+        Ok(())
+    };
+    for i in 0..n {
+        check_one(i, "first pass", &mut expected)?;
+    }
+    for i in [1usize, 0, 2, n / 2] {
+        check_one(i.min(n - 1), "early hits", &mut expected)?;
+    }
+    for i in n..n + 2 {
+        check_one(i, "two more", &mut expected)?;
+    }
+    for i in 0..n + 2 {
+        check_one(i, "second pass", &mut expected)?;
+    }
+    // and backwards
+    for i in (0..n + 2).rev() {
+        check_one(i, "third pass", &mut expected)?;
+    }
+    st.add("sweep_builds", (3 * n + 10) as u64);
+    st.count("sweep_cases");
+    st.nontrivial = true;
+    Ok(st)
+}
+
 impl Check for C13 {
     fn id(&self) -> &'static str {
         "C13"
     }
     fn rule(&self) -> &'static str {
-        "case = sequence of 3-10 builds drawn with repetition from a pool made of a base configuration, 2-4 near-identical variants (one token type changed, two patterns swapped, lookahead added / removed / polarity flipped / pattern changed, transition added / retargeted, mode renamed, one pattern changed), an unrelated configuration and failing configurations (syntax error or unsupported construct in first / last pattern or lookahead of any mode); mode names carry a per-execution nonce so that executions never meet each other's cache entries; oracle = every build() versus build_uncached() of the same modes: same Ok/Err, equal mode_name, equal token streams on probe inputs sampled from the languages of ALL pool members, and equivalent automata (identical dumps with class predicates compared on a probe set of ~600 characters, or - when dumps differ, and always for the last build of every fourth case - exact language equivalence per mode and lookahead over the alphabet atoms); a quarter of the cases instead drive the simple builder add_patterns(..).build() with pattern lists that are prefixes / extensions of each other, one pattern changed, two swapped, empty, failing (a nonce pattern stands first), compared with the same patterns built without the cache; non-trivial = a variant is built after its sibling was cached, or a valid build follows a failing one"
+        "case = sequence of 3-10 builds drawn with repetition from a pool made of a base configuration, 2-4 near-identical variants (one token type changed, two patterns swapped, lookahead added / removed / polarity flipped / pattern changed, transition added / retargeted, mode renamed, one pattern changed), an unrelated configuration and failing configurations (syntax error or unsupported construct in first / last pattern or lookahead of any mode); mode names carry a per-execution nonce so that executions never meet each other's cache entries; oracle = every build() versus build_uncached() of the same modes: same Ok/Err, equal mode_name, equal token streams on probe inputs sampled from the languages of ALL pool members, and equivalent automata (identical dumps with class predicates compared on a probe set of ~600 characters, or - when dumps differ, and always for the last build of every fourth case - exact language equivalence per mode and lookahead over the alphabet atoms); a quarter of the cases instead drive the simple builder add_patterns(..).build() with pattern lists that are prefixes / extensions of each other, one pattern changed, two swapped, empty, failing (a nonce pattern stands first), compared with the same patterns built without the cache; fixed sweep cases build 70 ... 1 100 (thorough: 9 000) distinct configurations, hit a few early ones, build two more and re-build all of them twice, each time compared with the uncached scanner; non-trivial = a variant is built after its sibling was cached, or a valid build follows a failing one"
     }
     fn cases(&self, thorough: bool) -> usize {
         if thorough {
@@ -365,6 +438,20 @@ impl Check for C13 {
         } else {
             4_000
         }
+    }
+    fn fixed_cases(&self, thorough: bool) -> Vec<Case> {
+        // sweeps over many distinct configurations (a bounded cache / replacement policy only acts
+        // beyond its capacity): build n, hit a few early ones, build some more, re-build all
+        let mut ns = vec![70usize, 140, 300, 600, 1100];
+        if thorough {
+            ns.extend([2100, 4200, 9000]);
+        }
+        ns.into_iter()
+            .map(|n| Case {
+                extra: json!({"kind": "sweep", "n": n}),
+                ..Case::default()
+            })
+            .collect()
     }
     fn generate(&self, d: &mut Dec, thorough: bool) -> Case {
         let p = GenParams {
@@ -389,7 +476,7 @@ impl Check for C13 {
         for _ in 0..d.weighted(&[3, 4, 2]) {
             pool.push((failing(d, &base), "failing".into()));
         }
-        let long = d.chance(5);
+        let long = d.chance(12);
         if long {
             // a long sequence over a larger pool (a cache with a size limit or an eviction policy
             // would only show beyond some number of entries)
@@ -440,6 +527,9 @@ impl Check for C13 {
     fn check(&self, case: &Case) -> CheckResult {
         if case.extra["kind"].as_str() == Some("simple") {
             return check_simple(case);
+        }
+        if case.extra["kind"].as_str() == Some("sweep") {
+            return check_sweep(case);
         }
         let pool = match pool_of(case) {
             Ok(p) => p,
